@@ -785,7 +785,83 @@ fn c06(cx: &Ctx) {
 // ---------------------------------------------------------------------------------------------------------------
 // C13: each entry leaves memory exactly once, with the right reason and disk hand-off.
 
+/// C13, observed without the listener: in single-client stepwise runs the set of findable keys is sampled after every
+/// operation. A key that stops being findable during an operation that is not its own removal left by capacity
+/// eviction and must have been offered to the disk tier exactly once in that operation's window; a key that stops being
+/// findable because it was removed, cleared or replaced by a disk-only version must not have been offered.
+fn c13_stepwise_offers(cx: &Ctx) {
+    if cx.case.get("pipe") == 0 || cx.case.clients.len() != 1 || cx.log.snaps.is_empty() {
+        return;
+    }
+    // resident version per key as the operation results imply it
+    let mut resident: BTreeMap<u64, u32> = BTreeMap::new();
+    let mut before: Vec<bool> = vec![false; cx.keys as usize];
+    for r in &cx.log.oplog {
+        let Some(snap) = cx.log.snaps.iter().find(|s| s.after == (r.client, r.idx)) else { continue };
+        let prev_resident = resident.clone();
+        match &r.op {
+            Op::Insert { k, ver, loc, .. } => {
+                if cx.phantom_insert(*k, *loc) {
+                    resident.remove(k);
+                } else {
+                    resident.insert(*k, *ver);
+                }
+            }
+            Op::Fetch { k, .. } if r.res.tag == Res::HIT => {
+                let phantom = cx.filter_mod > 0 && k % cx.filter_mod == cx.filter_mod - 1;
+                if !phantom {
+                    resident.insert(*k, r.res.ver);
+                }
+            }
+            Op::Remove { k } => {
+                resident.remove(k);
+            }
+            Op::Clear => resident.clear(),
+            _ => {}
+        }
+        for k in 0..cx.keys {
+            let (was, is) = (before[k as usize], snap.contains.get(k as usize).copied().unwrap_or(false));
+            if !(was && !is) {
+                continue;
+            }
+            let Some(ver) = prev_resident.get(&k).copied() else { continue };
+            let offers = cx.evs.iter().filter(|e| e.kind == "pipe" && e.b == k && e.c == ver as u64 && e.seq > r.inv && e.seq < r.ret).count();
+            let own_removal = match &r.op {
+                Op::Remove { k: rk } => *rk == k,
+                Op::Clear => true,
+                Op::Insert { k: ik, loc, .. } => *ik == k && cx.phantom_insert(*ik, *loc),
+                Op::Fetch { k: fk, .. } => *fk == k,
+                _ => false,
+            };
+            hist::probe("c13_stepwise_departure_checked");
+            if own_removal {
+                if matches!(r.op, Op::Fetch { .. }) {
+                    continue;
+                }
+                if offers != 0 {
+                    cx.v("removed-or-replaced-entry-offered", format!("entry ({k},v{ver}) stopped being findable because of {:?}, yet it was offered to the disk tier {offers} time(s)", r.op), &[("count", offers.to_string())]);
+                }
+            } else if matches!(r.op, Op::Insert { .. } | Op::Resize { .. } | Op::EvictAll | Op::Flush) && offers != 1 {
+                // (a fetch is left out: its insertion runs in the fetch task, whose hand-offs may come after the caller
+                // has been answered)
+                cx.v(
+                    "evicted-entry-offer-count",
+                    format!("entry ({k},v{ver}) was evicted during {:?} (findable before, not after, not removed or replaced) and was offered to the disk tier {offers} times", r.op),
+                    &[("count", offers.to_string()), ("listener", (cx.case.get("no_listener") == 0).to_string())],
+                );
+            }
+        }
+        before = snap.contains.clone();
+        before.resize(cx.keys as usize, false);
+    }
+}
+
 fn c13(cx: &Ctx) {
+    c13_stepwise_offers(cx);
+    if cx.case.get("no_listener") != 0 {
+        // without a listener there are no leave notifications to judge
+        return;
+    }
     let orgs = origins(cx.evs);
     let piped = cx.case.get("pipe") != 0;
     // admitted versions
@@ -891,6 +967,11 @@ fn c13(cx: &Ctx) {
                 }
                 if in_window(&|q| matches!(&q.op, Op::Remove { k: qk } if qk == k) && q.res.tag == Res::HIT && q.res.ver == *ver) {
                     cx.v("wrong-reason", format!("entry ({k},v{ver}) was removed but left with Evict"), &[("reason", "evict".into())]);
+                }
+                // a disk-only (phantom) insert of the same key replaces the resident copy; it is not admitted, so it
+                // evicts nothing: with one client the resident copy can only leave as Replace
+                if cx.case.clients.len() == 1 && in_window(&|q| matches!(&q.op, Op::Insert { k: qk, ver: qv, loc, .. } if qk == k && qv != ver && cx.phantom_insert(*qk, *loc))) {
+                    cx.v("wrong-reason", format!("entry ({k},v{ver}) was replaced by a disk-only insert of its key but left with Evict"), &[("reason", "evict-on-phantom-replace".into())]);
                 }
                 if cx.case.clients.len() == 1 {
                     // single client: an Evict notification can only come from an op that evicts
